@@ -57,3 +57,50 @@ Definition period_oracle_bad (c : period_case) : bool :=
 Definition names_bad (accepted : list string) : bool :=
   negb (forallb (fun m => existsb (String.eqb (name_of m)) accepted) all_modalities
         && forallb (fun n => match modality_of_name n with Some _ => true | None => false end) accepted).
+
+(** Periods in which the predicate sometimes does not evaluate (a type
+    mismatch on some samples): such a round is REPORTED (result code 1) but it
+    is not an observation: the automaton does not move. *)
+Definition period3_case := (string * list (option bool) * option (list Z))%type.
+
+Fixpoint run_from3 (tbl : fsm_table) (q : nat) (tr : list (option bool)) : option (list Z) :=
+  match tr with
+  | [] => match step_report tbl q "end" with
+          | Some (_, v) => Some [verdict_code v]
+          | None => None
+          end
+  | None :: tr' => option_map (cons 1%Z) (run_from3 tbl q tr')
+  | Some b :: tr' => match step_report tbl q (lbl b) with
+                     | Some (q', v) => option_map (cons (verdict_code v)) (run_from3 tbl q' tr')
+                     | None => None
+                     end
+  end.
+
+Definition model_period3 (reg : list fsm_table) (n : string) (tr : list (option bool)) : option (list Z) :=
+  match lookup reg n with
+  | None => None
+  | Some tbl => match state_name tbl (f_start tbl) with
+                | None => None
+                | Some _ => run_from3 tbl (f_start tbl) tr
+                end
+  end.
+
+Definition period3_model_bad (reg : list fsm_table) (c : period3_case) : bool :=
+  let '(n, tr, o) := c in negb (codes_eqb (model_period3 reg n tr) o).
+
+(** the property itself: the verdicts are those of the plain meaning over the
+    rounds in which the predicate did evaluate *)
+Definition period3_oracle_bad (c : period3_case) : bool :=
+  let '(n, tr, o) := c in
+  let obs := flat_map (fun x => match x with Some b => [b] | None => [] end) tr in
+  let nerr := List.length (filter (fun x => match x with None => true | Some _ => false end) tr) in
+  match modality_of_name n, o with
+  | Some m, Some codes =>
+      let judged := filter (fun c => negb (Z.eqb c 1)) codes in
+      let dis := existsb (Z.eqb 2) judged in
+      negb (Bool.eqb dis (negb (meaning m obs))
+            && (dis || Z.eqb (last judged 3%Z) 0)
+            && Nat.eqb (List.length judged) (S (List.length obs))
+            && Nat.eqb (List.length codes - List.length judged) nerr)
+  | _, _ => true
+  end.
